@@ -63,7 +63,10 @@ Definition zupd (i : Z) (x : blk) (l : list blk) : list blk := upd_nth (Z.to_nat
 (* memcpy(dst, &buf[start], sizeof(void* ) * n) *)
 Definition zslice (start n : Z) (l : list blk) : list blk :=
   firstn (Z.to_nat n) (skipn (Z.to_nat start) l).
-Definition zseq (n : Z) : list Z := map Z.of_nat (seq 0 (Z.to_nat n)).
+(* [0; 1; ...; n-1] *)
+Fixpoint zseq_from (start : Z) (k : nat) : list Z :=
+  match k with O => [] | S k' => start :: zseq_from (start + 1) k' end.
+Definition zseq (n : Z) : list Z := zseq_from 0 (Z.to_nat n).
 Definition zlen {A} (l : list A) : Z := Z.of_nat (length l).
 
 (* for (i = 0; i < n; ++i) ptr_buf[..+i] = (char* )slab_k + i * block_size *)
